@@ -111,17 +111,24 @@ CLAIMED["C02"] = dict(
 )
 
 CLAIMED["C11"] = dict(
-    text="Lean theorem C11_import_total: for EVERY file (any list of token lines) the model of bristol_to_garble returns a circuit "
-         "or one of the importer's error values - the `crash` outcome that marks every index operation and subtraction of the Rust "
-         "code is unreachable (header sanity implies all later indices are in range). PARTIAL: the round trip "
-         "(C11_roundtrip_Statement) and the well-formedness of the exported text are not yet proved; they are checked on every "
-         "run: exported tokens identical to the model's, well-formed Bristol (counts, single assignment before use, outputs last "
-         "in order, de-aliasing), re-import evaluated against the original on all/random inputs, and 3000+ mutated or random "
-         "files through the importer with verdict and circuit equal to the model's.",
+    text="Lean theorems, for the token-level models of format_as_bristol / bristol_to_garble: C11_roundtrip - EVERY valid circuit "
+         "whose outputs are not input wires (any gates, any number of repeated or constant outputs) is exported without error, "
+         "the importer accepts the file, and the imported circuit returns on EVERY input of the declared shape the original "
+         "outputs without the panic record, in order (C11_import_of_export: the imported gate list is the exported one, gate for "
+         "gate); C11_export_wellformed - header counts equal the numbers of gate lines and wires, gates appear in their original "
+         "order followed by the copies for repeated outputs (operands assigned before use), line j assigns wire f(inputs+j) for an "
+         "injective renumbering f that fixes the inputs and sends the k-th of the pairwise distinct outputs to the k-th of the last "
+         "wires; C11_import_total - for EVERY file (any list of token lines) the importer returns a circuit or one of its error "
+         "values, the `crash` outcome that marks every index operation and subtraction of the Rust code is unreachable. One explicit "
+         "hypothesis beyond the property text: the export must stay within the importer's MAX_GATES limit (each repeated output "
+         "adds two gates; beyond the limit the importer returns an error). On every run: exported tokens identical to the model's, "
+         "re-import evaluated against the original on all/random inputs, and 3000+ mutated or random files through the importer "
+         "with verdict and circuit equal to the model's.",
     design_ref="DESIGN.md §6 C11",
     note="trusted: Lean kernel; Model/Bristol.lean (token-level transliteration of convert.rs after repair 2c43f95) tied by exact "
-         "correspondence; tokenisation and decimal parsing are done by the harness with the same usize parser",
-    technique="Lean 4 proof (importer state invariant) + exact correspondence + round-trip oracle",
+         "correspondence; tokenisation and decimal printing/parsing are done by the harness with the same usize parser",
+    technique="Lean 4 proof (renumbering is a bijection by a counting argument; importer state invariant over the exported lines; "
+              "de-aliasing gates copy the wire) + exact correspondence + round-trip oracle",
 )
 
 CLAIMED["C07"] = dict(
